@@ -55,11 +55,14 @@ Ref(a)      == [k |-> "ref", a |-> a, b |-> ""]          \* shortcut reference  
 Full(a, b)  == [k |-> "full", a |-> a, b |-> b]          \* full reference      [a][b]
 Coll(a)     == [k |-> "coll", a |-> a, b |-> ""]         \* collapsed reference [a][]
 ImgRef(a)   == [k |-> "imgref", a |-> a, b |-> ""]       \* image, shortcut reference ![a]
+Raw(a, b)   == [k |-> "raw", a |-> a, b |-> b]               \* spelled construct a with its HTML b (checked by hand against CommonMark 0.30)
 Soft        == [k |-> "soft", a |-> "", b |-> ""]        \* line end inside a paragraph
 Hard        == [k |-> "hard", a |-> "", b |-> ""]        \* backslash + line end
 
 (* labels: variants of one base match each other (case, inner whitespace); near-duplicates do not *)
+(* "{SZ}" stands for LATIN CAPITAL LETTER SHARP S (the harness puts the character in): it matches "SS" by Unicode case folding *)
 Base(l) == CASE l \in {"foo", "FOO", "Foo"}           -> "foo"
+             [] l \in {"{SZ}", "SS", "ss"}            -> "ss"
              [] l \in {"bar baz", "Bar  BAZ"}         -> "bar baz"
              [] OTHER                                 -> l
 LabelPool == Pick({"foo", "FOO"}, {"foo", "FOO", "foob"}, {"foo", "FOO", "bar baz", "Bar  BAZ", "foob"})
@@ -74,6 +77,7 @@ AtomSrc(a) ==
       [] a.k = "full"   -> "[" \o a.a \o "][" \o a.b \o "]"
       [] a.k = "coll"   -> "[" \o a.a \o "][]"
       [] a.k = "imgref" -> "![" \o a.a \o "]"
+      [] a.k = "raw"    -> a.a
 
 (* first definition in source order whose label has the same base; 0 = none *)
 Resolve(ds, l) == LET C == {i \in DOMAIN ds : Base(ds[i].label) = Base(l)} IN
@@ -96,6 +100,7 @@ AtomHtml(a, ds) ==
       [] a.k = "imgref" -> IF Resolve(ds, a.a) = 0 THEN "![" \o a.a \o "]"
                            ELSE LET d == ds[Resolve(ds, a.a)] IN
                                 "<img src=\"" \o d.href \o "\" alt=\"" \o a.a \o "\"" \o (IF d.title = "" THEN "" ELSE " title=\"" \o d.title \o "\"") \o " />"
+      [] a.k = "raw"    -> a.b
       [] a.k = "soft"   -> "\n"
       [] a.k = "hard"   -> "<br />\n"
 
@@ -117,13 +122,20 @@ LineSeq(n) ==
          << <<W(w)>>, <<W(w), Em("em")>>, <<Ref("foo"), W(w)>>, <<W(w), Ref("FOO")>>, <<Full("text", "foob")>> >>,
          << <<W(w)>>, <<W(w), Em("em"), Code("co")>>, <<Link("ln", "/uri"), W(w)>>, <<Ref("foo"), W(w)>>, <<W(w), Ref("FOO")>>,
             <<Full("text", "Bar  BAZ"), W(w)>>, <<Coll("bar baz")>>, <<W(w), Ref("foob")>>, <<ImgRef("Foo"), W(w)>>, <<Strong("st"), W(w)>>,
-            <<W(w), Full("text", "foo")>>, <<W(w), W("two"), W("three")>> >>)
+            <<W(w), Full("text", "foo")>>, <<W(w), W("two"), W("three")>>,
+            <<W(w), Raw("**_a_**", "<strong><em>a</em></strong>"), W("x")>>, <<Raw("(_a_)", "(<em>a</em>)"), W(w)>>,
+            <<W(w), Raw("_\"a\"_", "<em>\"a\"</em>"), W("x")>>, <<Raw("*__a__*", "<em><strong>a</strong></em>"), W(w)>>,
+            <<W(w), Raw("__*a*__", "<strong><em>a</em></strong>")>>, <<Raw("*[ln](/uri)*", "<em><a href=\"/uri\">ln</a></em>"), W(w)>>,
+            <<W(w), Raw("_[ln](/uri)_", "<em><a href=\"/uri\">ln</a></em>"), W("x")>>, <<Raw("**`co`**", "<strong><code>co</code></strong>"), W(w)>>,
+            <<W(w), Raw("**_[ln](/uri)_**", "<strong><em><a href=\"/uri\">ln</a></em></strong>")>>, <<Raw("(_\"a\"_)", "(<em>\"a\"</em>)"), W(w)>>,
+            <<W(w), Raw("*__`co`__*", "<em><strong><code>co</code></strong></em>"), W("x")>>,
+            <<W(w), Ref("{SZ}")>>, <<Ref("SS"), W(w)>> >>)
 
 (* spelling variants: every action draws one index v and derives its free spelling choices from it, so that in
    simulation mode every kind of block is typed about equally often; over many documents all combinations occur *)
-Variants == Pick({0, 1}, 0..3, 0..11)
+Variants == Pick({0, 1}, 0..3, 0..12)
 At(sq, i) == sq[(i % Len(sq)) + 1]
-LineAt(v) == At(LineSeq(nblocks + 1), v + nblocks)
+LineAt(v) == At(LineSeq(nblocks + 1), 2 * v + 3 * nblocks)
 
 ---------------------------------------------------------------------------
 (* containers *)
@@ -297,7 +309,7 @@ TitleOf(t) == IF t = "" THEN "" ELSE SubSeq(t, 3, Len(t) - 1)
 
 TypeDef ==
     \E sep \in Seps, v \in Variants :
-       LET l == At(Pick(<<"foo", "FOO">>, <<"foo", "FOO", "foob">>, <<"foo", "FOO", "bar baz", "Bar  BAZ", "foob">>), v)
+       LET l == At(Pick(<<"foo", "FOO">>, <<"foo", "FOO", "foob">>, <<"foo", "FOO", "bar baz", "Bar  BAZ", "foob", "SS", "{SZ}">>), v)
            d == At(Pick(<<"/u1", "/u2">>, <<"/u1", "/u2">>, <<"/u1", "/u2", "<a b>">>), v + nblocks)
            t == At(Pick(<<"">>, <<"", " \"t1\"">>, <<"", " \"t1\"", " 't2'", " (t3)">>), v \div 2) IN
        /\ Budget
@@ -313,18 +325,22 @@ TypeDef ==
 
 ---------------------------------------------------------------------------
 (* containers *)
+(* a block quote may begin with a line that holds only the marker *)
 OpenQuote ==
-    \E sep \in Seps :
+    \E sep \in Seps, bs \in BOOLEAN :
        /\ phase = "typing" /\ Depth < MaxDepth /\ nblocks < MaxBlocks
        /\ FirstKindOk("quote")
        /\ SepOk(sep, "quote")
-       /\ src' = src \o SepLines(sep)
+       /\ src' = IF bs THEN src \o SepLines(sep) \o <<PrefixNow(open) \o ">">> ELSE src \o SepLines(sep)
        /\ nodes' = Append(nodes, Node("Quote", Parent, Len(src) + Len(SepLines(sep)) + 1, 0, NoText, ""))
-       /\ open' = Append(open, [kind |-> "quote", node |-> Len(nodes) + 1, list |-> 0, first |-> "> ", rest |-> "> ", started |-> FALSE,
-                                marker |-> ">", mtype |-> "", num |-> 0, indent |-> 0, pad |-> 1])
+       /\ open' = Append(IF bs THEN Started(open) ELSE open,
+                         [kind |-> "quote", node |-> Len(nodes) + 1, list |-> 0, first |-> "> ", rest |-> "> ", started |-> bs,
+                          marker |-> ">", mtype |-> "", num |-> 0, indent |-> 0, pad |-> 1])
        /\ loose' = LooseAfter(sep)
        /\ last' = [kind |-> "none", mtype |-> ""]
-       /\ UNCHANGED <<defs, nblocks, phase, tags, target>>
+       /\ nblocks' = IF bs THEN nblocks + 1 ELSE nblocks
+       /\ tags' = tags \cup (IF bs THEN {"quote-begins-with-blank-line"} ELSE {})
+       /\ UNCHANGED <<defs, phase, target>>
 
 Bullets == {"-", "+", "*"}
 MarkerSeq == Pick(<< [b |-> "-"], [n |-> 1, d |-> "."] >>,
@@ -408,7 +424,7 @@ Init ==
     /\ target \in (IF Rich THEN 2..MaxBlocks ELSE {1})
 
 Next == TypePara \/ TypeAtx \/ TypeSetext \/ TypeHr \/ TypeFence \/ TypeIndented \/ TypeDef
-        \/ (OpenQuote /\ UNCHANGED tags) \/ OpenList \/ NextItem \/ (Close /\ UNCHANGED tags) \/ (Finish /\ UNCHANGED tags)
+        \/ OpenQuote \/ OpenList \/ NextItem \/ (Close /\ UNCHANGED tags) \/ (Finish /\ UNCHANGED tags)
 
 ---------------------------------------------------------------------------
 (* the HTML of the intended tree *)
